@@ -52,13 +52,6 @@ def Prim.guardedK (k : EffKind) (p : Prim) : Prop :=
   | .notify => p.eff.notify = true → p.req.notify = true
   | .call => p.eff.call = true → p.req.call = true
 
-def Instr.prim? : Instr → Option Prim
-  | .prim p => some p
-  | .call p _ _ => some p
-  | .loadScript p _ => some p
-  | .nativeCall p _ => some p
-  | .ret => none
-
 theorem run_nil (P : Params) (s : State) : run P s [] = s := rfl
 theorem run_cons (P : Params) (s : State) (i : Instr) (is : List Instr) :
     run P s (i :: is) = run P (step P s i) is := rfl
